@@ -232,7 +232,7 @@ def phrase_ok(s, loc, mode, absolute, direction, elapsed_s):
                 continue
             if unit == "few":
                 if elapsed_s is None or abs(elapsed_s) < 12:
-                    return None
+                    return _wrong_direction(s, loc, mode, absolute, direction)
                 best = "magnitude"
                 continue
             if elapsed_s is None:
@@ -242,9 +242,22 @@ def phrase_ok(s, loc, mode, absolute, direction, elapsed_s):
             except (IndexError, ValueError, TypeError):
                 return None
             if abs(cnt * ULEN[unit] - abs(elapsed_s)) <= ULEN[unit] * 1.02:
-                return None
+                return _wrong_direction(s, loc, mode, absolute, direction)
             best = "magnitude"
     return best
+
+
+def _wrong_direction(s, loc, mode, absolute, direction):
+    """a phrase of a known direction must not also read as the opposite one.  On the shipped data
+    no template of one direction matches a phrase of the other (checked for all 27 locales, both
+    modes), so a match here means the locale data itself confuses the two markers."""
+    if absolute or direction is None:
+        return None
+    other = "future" if direction == "past" else "past"
+    for _unit, rx in templates(loc, mode, other, False):
+        if rx.match(s):
+            return "matches-the-opposite-direction"
+    return None
 
 
 # ------------------------------------------------------------------------------- L2
